@@ -4,44 +4,91 @@ C12 — reaction text is read exactly as written; printing and parsing are inver
 Model: `ChemModel/Model/ReactionText.lean` (mirrors `to_reaction`, `_parse_multiplicity`, `_is_inactive_term`,
 `Reaction.__init__/_init_stoich/__eq__/copy`, `StrPrinter`, `ReactionSystem.from_string`); separators and arrows are
 regenerated from the source into `Gen/Printing.lean` on every run.  The written notation (`Term`, `writeLine`,
-`count`, `Term.ok`, `tokOK`) is the specification side, at the end of the model file.
+`tailText`, `written`, `Term.ok`, `tokOK`, `hasEffect`, `integralWritten`) is the specification side, at the end of
+the model file.  `Printable`, `normal`, `GoodDict`, `keysOf`, `Tight` are defined in `Proofs/ReactionText.lean`.
 -/
 import ChemModel.Proofs.ReactionText
 
 namespace ChemModel.C12
 open ChemModel.ReactionText ChemModel.Gen
 
-/-- **Reading a written line.**  For EVERY written reaction — any number of terms per side, coefficients `n ≥ 1`
-written as `X` (n = 1), `n X` or `n * X`, repeated species, inactive groups `(n X)`, species keys that are arbitrary
-admissible strings (non-empty, no ASCII space, no `;`, not containing the arrow token, not the lone `+`, not starting
-or ending with white space; a key written without coefficient must not itself be a `( … )` closed at its last
-character; the key of an inactive group has balanced round parentheses) **including keys that begin with a bracket** —
-and every admissible arrow token (`->`, `=`, …): if the written reaction has a net effect, parsing the line succeeds
-and each of the four dictionaries holds exactly the written keys of that side and kind, each with the SUM of its
-written coefficients as a Python `int`; no key appears twice; no parameter. -/
-theorem parse_written (tok : Str) (reac prod : List Term) (htok : tokOK tok = true)
-    (hr : ∀ t ∈ reac, t.ok tok = true) (hp : ∀ t ∈ prod, t.ok tok = true) (heff : hasEffect reac prod = true) :
-    ∃ r, toReaction .none tok (writeLine tok reac prod) = .ok r ∧
-      (∀ k, dictGet r.reac k = coefOf (count false k reac)) ∧
-      (∀ k, dictGet r.prod k = coefOf (count false k prod)) ∧
-      (∀ k, dictGet r.inactReac k = coefOf (count true k reac)) ∧
-      (∀ k, dictGet r.inactProd k = coefOf (count true k prod)) ∧
-      (keysOf r.reac).Nodup ∧ (keysOf r.prod).Nodup ∧ (keysOf r.inactReac).Nodup ∧ (keysOf r.inactProd).Nodup ∧
-      r.param = none := by
-  have hr1 : ∀ t ∈ reac, 1 ≤ t.n := fun t ht => (Term.ok_spec (hr t ht)).2.1
-  have hp1 : ∀ t ∈ prod, 1 ≤ t.n := fun t ht => (Term.ok_spec (hp t ht)).2.1
-  refine ⟨parsedOf reac prod, ?_, get_sorted_actD reac hr1, get_sorted_actD prod hp1, get_sorted_inaD reac hr1,
-    get_sorted_inaD prod hp1, (sortDict_spec (nodup_actD reac)).1, (sortDict_spec (nodup_actD prod)).1,
-    (sortDict_spec (nodup_inaD reac)).1, (sortDict_spec (nodup_inaD prod)).1, rfl⟩
-  rw [toReaction_written .none htok hr hp, heff]
-  simp [allAllowed, Allowed.has]
+/-! ### guards: the source strings the proofs are about -/
 
-/-- a written reaction whose species all cancel is refused (the `check_any_effect` of the constructor), never misread -/
-theorem parse_written_no_effect (tok : Str) (reac prod : List Term) (htok : tokOK tok = true)
-    (hr : ∀ t ∈ reac, t.ok tok = true) (hp : ∀ t ∈ prod, t.ok tok = true) (heff : hasEffect reac prod = false) :
-    toReaction .none tok (writeLine tok reac prod) = .error .noEffect := by
-  rw [toReaction_written .none htok hr hp, heff]
-  simp [allAllowed, Allowed.has]
+/-- separators of `to_reaction`, `_parse_multiplicity`, `StrPrinter` and `ReactionSystem.from_string` as the proofs use them -/
+theorem separators_guard :
+    Printing.partSep = [';'] ∧ Printing.termSep = [' ', '+', ' '] ∧ Printing.lineEnd = ['\n'] ∧
+    Printing.floatMarkers = ['.', 'e'] ∧ Printing.multiplicityRegex = " \\* | ".toList ∧
+    Printing.termJoin = [' ', '+', ' '] ∧ Printing.termJoinProd = [' ', '+', ' '] ∧ Printing.coeffSpace = [' '] ∧
+    Printing.aroundArrowL = [' '] ∧ Printing.aroundArrowR = [' '] ∧ Printing.paramSeparator = [';', ' '] ∧
+    Printing.systemLineSep = ['\n'] ∧ Printing.systemLineJoin = ['\n'] ∧ Printing.commentTokens = [['#']] ∧
+    Printing.reactionStrTemplate = "{}{}%s{}%s{}{}".toList ∧ Printing.magnitudeFmt = "%.3g".toList := by decide
+
+/-- the arrow the `StrPrinter` writes for a class is the token `from_string` of that class splits on; both are admissible,
+newline-free tokens -/
+theorem arrows_agree_guard :
+    Printing.strReactionArrow = Printing.reactionToken ∧ Printing.strEquilibriumArrow = Printing.equilibriumToken ∧
+    tokOK Printing.reactionToken = true ∧ tokOK Printing.equilibriumToken = true ∧
+    '\n' ∉ Printing.reactionToken ∧ '\n' ∉ Printing.equilibriumToken := by decide
+
+/-- `Reaction._cmp_attr` is what `Reaction.eq` compares (name, ref, data are not compared) and the default checks are the
+ones `Reaction.check` runs (`consistent_units` is vacuous for unit-less parameters) -/
+theorem cmp_attr_checks_guard :
+    Printing.cmpAttr = ["reac", "prod", "param", "inact_reac", "inact_prod"] ∧
+    Printing.defaultChecks = ["all_integral", "all_positive", "any_effect", "consistent_units"] := by decide
+
+/-! ### reading a written line -/
+
+/-- **Reading a written line.**  For EVERY written reaction — any number of terms per side; coefficients written as
+`X` (1), `n X`, `n * X` (integer `n ≥ 1`) or as a DECIMAL `n.ddd X` (≤ 15 digits); repeated species; inactive groups
+`(… X)`; species keys that are arbitrary admissible strings (non-empty, no ASCII space, no `;`, not containing the
+arrow token, not the lone `+`, not starting/ending with white space; a key written without coefficient must not itself
+be a `( … )` closed at its last character; the key of an inactive group has balanced round parentheses) **including
+keys that begin with a bracket**; every admissible arrow token (`->`, `=`, …); followed by ANY tail of `;`-separated
+parts (`; parameter; keyword=value …`, free of `;` and newline) —
+if the written reaction has a net effect and whole-number totals (what the constructor demands), parsing succeeds and
+* each of the four dictionaries holds exactly the written keys of that side and kind (`written` is `none` for every
+  other key), each with the exact SUM of its written coefficients — the decimal texts with their exact rational value —
+  as an `int`, or as a `float` iff one of the summed coefficients is written as a decimal;
+* no key appears twice;
+* the parameter text handed to `eval` is exactly the first tail part, stripped (`none` without a tail): the
+  stoichiometry is unaffected by whatever follows the first `;`. -/
+theorem parse_written (tok : Str) (reac prod : List Term) (tl : List Str) (htok : tokOK tok = true)
+    (hr : ∀ t ∈ reac, t.ok tok = true) (hp : ∀ t ∈ prod, t.ok tok = true)
+    (htl : ∀ p ∈ tl, ';' ∉ p ∧ '\n' ∉ p)
+    (heff : hasEffect reac prod = true) (hint : integralWritten reac prod = true) :
+    ∃ r, toReaction .none tok (writeLine tok reac prod ++ tailText tl) = .ok r ∧
+      (∀ k, dictGet r.reac k = written false k reac) ∧
+      (∀ k, dictGet r.prod k = written false k prod) ∧
+      (∀ k, dictGet r.inactReac k = written true k reac) ∧
+      (∀ k, dictGet r.inactProd k = written true k prod) ∧
+      (keysOf r.reac).Nodup ∧ (keysOf r.prod).Nodup ∧ (keysOf r.inactReac).Nodup ∧ (keysOf r.inactProd).Nodup ∧
+      r.param = tl.head?.map strip := by
+  refine ⟨{ parsedOf reac prod with param := tl.head?.map strip }, ?_, get_sorted_actD reac, get_sorted_actD prod,
+    get_sorted_inaD reac, get_sorted_inaD prod, (sortDict_spec (nodup_actD reac)).1, (sortDict_spec (nodup_actD prod)).1,
+    (sortDict_spec (nodup_inaD reac)).1, (sortDict_spec (nodup_inaD prod)).1, rfl⟩
+  rw [toReaction_written .none htok hr hp tl htl]
+  simp [allAllowed, Allowed.has, outcome, heff, hint]
+
+/-- the value a decimal coefficient text denotes, e.g. `2.50` ↦ 250/100: `float()` of the text, exactly -/
+theorem decimal_text_value (n : Nat) (fr : Str) (hn : 1 ≤ n) (hne : fr ≠ []) (hd : ∀ c ∈ fr, c.isDigit = true)
+    (hlen : (natStr n).length + fr.length ≤ 15) :
+    pyFloat (natStr n ++ '.' :: fr) = .ok (decValue n fr) := pyFloat_dec hn hne hd hlen
+
+/-- a written reaction whose species all cancel is refused (`check_any_effect`), never misread -/
+theorem parse_written_no_effect (tok : Str) (reac prod : List Term) (tl : List Str) (htok : tokOK tok = true)
+    (hr : ∀ t ∈ reac, t.ok tok = true) (hp : ∀ t ∈ prod, t.ok tok = true) (htl : ∀ p ∈ tl, ';' ∉ p ∧ '\n' ∉ p)
+    (heff : hasEffect reac prod = false) :
+    toReaction .none tok (writeLine tok reac prod ++ tailText tl) = .error .noEffect := by
+  rw [toReaction_written .none htok hr hp tl htl]
+  simp [allAllowed, Allowed.has, outcome, heff]
+
+/-- a written reaction in which some total is not a whole number (e.g. `1.5 A -> B`) is refused (`check_all_integral`) -/
+theorem parse_written_non_integral (tok : Str) (reac prod : List Term) (tl : List Str) (htok : tokOK tok = true)
+    (hr : ∀ t ∈ reac, t.ok tok = true) (hp : ∀ t ∈ prod, t.ok tok = true) (htl : ∀ p ∈ tl, ';' ∉ p ∧ '\n' ∉ p)
+    (heff : hasEffect reac prod = true) (hint : integralWritten reac prod = false) :
+    toReaction .none tok (writeLine tok reac prod ++ tailText tl) = .error .nonIntegral := by
+  rw [toReaction_written .none htok hr hp tl htl]
+  simp [allAllowed, Allowed.has, outcome, heff, hint]
 
 /-- **Unknown keys are rejected — for every line whatsoever** (not only well-written ones): when an allowed-key list is
 given and the parser returns a reaction, every key of its four dictionaries is in the list. -/
@@ -51,25 +98,16 @@ theorem unknown_key_rejected (ks : List Str) (tok line : Str) (r : Reaction)
   have := toReaction_keys_allowed h k hk
   simpa [Allowed.has] using this
 
-/-- … and a written reaction is accepted with an allowed-key list exactly when all its keys are listed; otherwise the
-answer is the `Unknown substance_key` error (never a reaction with the key dropped). -/
-theorem written_with_allowed_keys (ks : List Str) (tok : Str) (reac prod : List Term) (htok : tokOK tok = true)
-    (hr : ∀ t ∈ reac, t.ok tok = true) (hp : ∀ t ∈ prod, t.ok tok = true) :
-    toReaction (.list ks) tok (writeLine tok reac prod) =
-      if allAllowed (.list ks) reac prod then
-        (if hasEffect reac prod then .ok (parsedOf reac prod) else .error .noEffect)
-      else .error .unknownKey :=
-  toReaction_written (.list ks) htok hr hp
+/-- … and a written reaction is accepted with an allowed-key list exactly when all its keys (active and inactive, both
+sides) are listed; otherwise the answer is the `Unknown substance_key` error, never a reaction with the key dropped. -/
+theorem written_with_allowed_keys (ks : List Str) (tok : Str) (reac prod : List Term) (tl : List Str)
+    (htok : tokOK tok = true) (hr : ∀ t ∈ reac, t.ok tok = true) (hp : ∀ t ∈ prod, t.ok tok = true)
+    (htl : ∀ p ∈ tl, ';' ∉ p ∧ '\n' ∉ p) :
+    toReaction (.list ks) tok (writeLine tok reac prod ++ tailText tl) =
+      if allAllowed (.list ks) reac prod then outcome reac prod (tl.head?.map strip) else .error .unknownKey :=
+  toReaction_written (.list ks) htok hr hp tl htl
 
-/-- `r.copy() == r` (the parameter is compared with a reflexive equality in the model; a NaN parameter is outside it) -/
-theorem copy_eq (r : Reaction) : Reaction.eq r.copy r = true := Reaction.eq_refl r
-
-
-/-- the arrow the `StrPrinter` writes for a class is the token `from_string` of that class splits on, and both are
-admissible tokens (regenerated from `printing/string.py` and `chemistry.py` on every run) -/
-theorem arrows_agree :
-    Printing.strReactionArrow = Printing.reactionToken ∧ Printing.strEquilibriumArrow = Printing.equilibriumToken ∧
-    tokOK Printing.reactionToken = true ∧ tokOK Printing.equilibriumToken = true := by decide
+/-! ### print, then parse -/
 
 /-- **print ∘ parse, reactions and equilibria without inactive groups.**  Let `r` hold, on both sides, dictionaries as
 `_init_stoich` builds them (keys strictly increasing in code-point order), with int coefficients `≥ 1` and admissible
@@ -86,40 +124,52 @@ theorem print_parse_roundtrip (tok : Str) (r : Reaction) (htok : tokOK tok = tru
   simp [Reaction.eq, dictEq_refl, hir, hip, hparam, dictEq]
 
 /-- … and with the parameter printed (`with_param=True`): the parser is handed exactly the printed parameter text `p`
-(non-empty, no `;`, no surrounding white space — e.g. any `%.3g` output), so the re-read parameter is the value that
-text denotes: the original parameter at the printed precision (C20 proves what `%.3g` text denotes). -/
+(non-empty, no `;`, no newline, no surrounding white space — e.g. any `%.3g` output), so the re-read parameter is the
+value that text denotes: the original parameter at the printed precision (C20 proves what `%.3g` text denotes). -/
 theorem print_parse_roundtrip_param (tok : Str) (r : Reaction) (p : Str) (htok : tokOK tok = true)
     (hre : GoodDict tok r.reac) (hpr : GoodDict tok r.prod) (hir : r.inactReac = []) (hip : r.inactProd = [])
-    (heff : r.anyEffect = true) (hparam : r.param = some p) (hpt : Tight p) (hps : ';' ∉ p) :
+    (heff : r.anyEffect = true) (hparam : r.param = some p) (hpt : Tight p) (hps : ';' ∉ p) (hpn : '\n' ∉ p) :
     ∃ s r', printReaction tok true false r = some s ∧ toReaction .none tok s = .ok r' ∧
       r'.param = some p ∧ Reaction.eq r' r = true := by
-  obtain ⟨s, hs, hparse⟩ := parse_print_param htok hre hpr hir hip heff hparam hpt hps
+  obtain ⟨s, hs, hparse⟩ := parse_print_param htok hre hpr hir hip heff hparam hpt hps hpn
   refine ⟨s, _, hs, hparse, rfl, ?_⟩
   simp [Reaction.eq, dictEq_refl, hir, hip, hparam, dictEq]
 
-/-- **multi-line systems**: `ReactionSystem.from_string` hands to the reaction parser exactly the lines that are not
-blank and do not start (after stripping) with the comment token, in order — for every list of lines. -/
-theorem system_lines_read (ls : List Str) (hne : ls ≠ []) (h : ∀ l ∈ ls, '\n' ∉ l) :
-    systemLines Printing.commentTokens (joinStrs ['\n'] ls) =
-      ls.filter (fun r => strip r != [] && !(startsWith ['#'] (strip r))) := by
-  have split : ∀ (ls : List Str), ls ≠ [] → (∀ l ∈ ls, '\n' ∉ l) → pySplit ['\n'] (joinStrs ['\n'] ls) = ls := by
-    intro ls
-    induction ls with
-    | nil => intro h; exact absurd rfl h
-    | cons l ls ih =>
-      intro _ hl
-      have h1 : isInfixB ['\n'] l = false :=
-        isInfixB_false_of_not_mem (by simp) (fun c hc => by simp only [List.mem_singleton]; intro e; subst e; exact hl _ (by simp) hc)
-      cases ls with
-      | nil => simpa [joinStrs] using pySplit_none h1
-      | cons m ls =>
-        simp only [joinStrs]
-        rw [pySplit_first _ (by simp) (by simpa using h1), ih (by simp) (fun x hx => hl x (by simp [hx]))]
+/-- **print ∘ parse, systems** (`ReactionSystem.string()` then `ReactionSystem.from_string`, any list of comment tokens):
+for every list of printable reactions (no names printed, no inactive groups; `Printable` also asks that no key
+contains a newline and that no comment token is empty or starts with a digit, with the first character of the token or
+of a reactant key — otherwise the printed line is taken for a comment) the printed text is defined and parsing it
+returns reactions with the same dictionaries and the printed parameter texts, each equal (`==`) to its original when
+parameters are printed. -/
+theorem system_roundtrip (tok : Str) (cts : List Str) (wp : Bool) (rs : List Reaction) (htok : tokOK tok = true)
+    (hnl : '\n' ∉ tok) (h : ∀ r ∈ rs, Printable tok cts wp r) :
+    ∃ text, printSystem tok wp false none rs = some text ∧
+      systemFromString cts .none tok text = .ok (rs.map (normal wp)) ∧
+      ∀ r ∈ rs, (wp = true ∨ r.param = none) → Reaction.eq (normal wp r) r = true := by
+  obtain ⟨text, h1, h2⟩ := system_print_parse cts wp rs htok hnl h
+  exact ⟨text, h1, h2, fun r hr hp => normal_eq (h r hr).noInactR (h r hr).noInactP hp⟩
+
+/-- **multi-line systems, every comment-token list**: `ReactionSystem.from_string(s, comment_tokens=cts)` hands to the
+reaction parser exactly the lines that are not blank and do not start (after stripping) with one of the tokens, in
+order — for every list of lines and every token list (single- or multi-character tokens, several tokens). -/
+theorem system_lines_read (cts : List Str) (ls : List Str) (hne : ls ≠ []) (h : ∀ l ∈ ls, '\n' ∉ l) :
+    systemLines cts (joinStrs ['\n'] ls) =
+      ls.filter (fun r => strip r != [] && !(cts.any fun ct => startsWith ct (strip r))) := by
   unfold systemLines
-  rw [systemSep_is.1, split ls hne h, commentTokens_is]
-  simp
+  rw [systemSep_is.1, split_lines ls hne h]
+
+/-- … in particular a line starting (after blanks) with a multi-character comment token is skipped -/
+theorem multi_char_comment_skipped :
+    (systemFromString ["//".toList, "#".toList] .none "->".toList "// note\n  // x -> y\nA -> B\n# z".toList).toOption.map
+      (fun rs => rs.map fun r => (keysOf r.reac, keysOf r.prod)) = some [([['A']], [['B']])] := by decide +kernel
 
 /-! ### the code as it is: quirks of the pinned source, proved on concrete witnesses (reported in notes/C12.md) -/
+
+/-- a key that contains the arrow token is outside `parse_written` (`keyOK`): the line is split inside the key and the
+result is silently wrong — `C=O + H2 = CH3OH` is read as `C = H2 + O` -/
+theorem token_in_key_missplit_witness :
+    (toReaction .none "=".toList "C=O + H2 = CH3OH".toList).toOption.map (fun r => (keysOf r.reac, keysOf r.prod))
+      = some ([['C']], [['H', '2'], ['O']]) := by decide +kernel
 
 /-- a line with a second arrow is accepted and everything after the second arrow is silently dropped -/
 theorem second_arrow_dropped_witness :
@@ -140,26 +190,45 @@ theorem printed_name_read_as_param_witness :
 /-- the header line of a named system is handed to the reaction parser (→ "Missing token") -/
 theorem named_system_header_witness :
     (printSystem "->".toList true true (some "sys".toList) [⟨[(['A'], Coef.ofNat 1)], [(['B'], Coef.ofNat 1)], [], [], none, none⟩]).map
-      (fun s => (systemFromString .none "->".toList s).toOption.isNone) = some true := by decide +kernel
+      (fun s => (systemFromString Printing.commentTokens .none "->".toList s).toOption.isNone) = some true := by decide +kernel
 
 /-- explicit zero coefficients are not printed, so such a reaction does not survive the round trip -/
 theorem zero_coefficient_not_printed_witness :
     (printReaction "->".toList false false ⟨[(['A'], Coef.ofNat 0), (['B'], Coef.ofNat 1)], [(['C'], Coef.ofNat 1)], [], [], none, none⟩)
       = some "B -> C".toList := by decide +kernel
 
+/-- an `OrderedDict` given in non-sorted order is kept as it is, printed in that order, and re-read sorted:
+`OrderedDict.__eq__` is order sensitive, so the round trip is NOT an equal object (outside `GoodDict`) -/
+theorem unsorted_ordered_dict_witness :
+    let r : Reaction := ⟨[(['B'], Coef.ofNat 1), (['A'], Coef.ofNat 1)], [(['C'], Coef.ofNat 1)], [], [], none, none⟩
+    (printReaction "->".toList false false r).bind
+      (fun s => (toReaction .none "->".toList s).toOption.map (fun r' => Reaction.eq r' r)) = some false := by
+  decide +kernel
+
 /-! ### the hypotheses are satisfiable: concrete non-trivial instances -/
 
-/-- `(NH4)2SO4 + (2 H2O) -> 2 NH4+ + SO4-2 + NH4+` : a bracket-leading key, an inactive group, a repeated species -/
+/-- `(NH4)2SO4 + (2 H2O) + 1.50 X + 1.5 X -> 2 NH4+ + SO4-2 + 1 * NH4+ + 2.0 X; 1.5e-07 ; name='r1'`:
+a bracket-leading key, an inactive group, a repeated species, decimal coefficients, a parameter and a keyword part -/
 def exReac : List Term :=
-  [⟨"(NH4)2SO4".toList, 1, .omit, false⟩, ⟨"H2O".toList, 2, .plain, true⟩]
+  [⟨"(NH4)2SO4".toList, 1, .omit, false⟩, ⟨"H2O".toList, 2, .plain, true⟩, ⟨"X".toList, 1, .dec "50".toList, false⟩,
+   ⟨"X".toList, 1, .dec "5".toList, false⟩]
 def exProd : List Term :=
-  [⟨"NH4+".toList, 2, .plain, false⟩, ⟨"SO4-2".toList, 1, .omit, false⟩, ⟨"NH4+".toList, 1, .star, false⟩]
+  [⟨"NH4+".toList, 2, .plain, false⟩, ⟨"SO4-2".toList, 1, .omit, false⟩, ⟨"NH4+".toList, 1, .star, false⟩,
+   ⟨"X".toList, 2, .dec "0".toList, false⟩]
+def exTail : List Str := [" 1.5e-07 ".toList, " name='r1'".toList]
 
-example : writeLine "->".toList exReac exProd = "(NH4)2SO4 + (2 H2O) -> 2 NH4+ + SO4-2 + 1 * NH4+".toList := by decide
+example : writeLine "->".toList exReac exProd ++ tailText exTail =
+    "(NH4)2SO4 + (2 H2O) + 1.50 X + 1.5 X -> 2 NH4+ + SO4-2 + 1 * NH4+ + 2.0 X; 1.5e-07 ; name='r1'".toList := by decide
 example : tokOK "->".toList = true ∧ tokOK "=".toList = true := by decide
 example : (∀ t ∈ exReac, t.ok "->".toList = true) ∧ (∀ t ∈ exProd, t.ok "->".toList = true) := by decide
-example : hasEffect exReac exProd = true := by decide
-example : count false "NH4+".toList exProd = 3 ∧ count true "H2O".toList exReac = 2 := by decide
+example : ∀ p ∈ exTail, ';' ∉ p ∧ '\n' ∉ p := by decide
+example : hasEffect exReac exProd = true ∧ integralWritten exReac exProd = true := by decide +kernel
+example : written false "NH4+".toList exProd = some ⟨3, false⟩ ∧ written true "H2O".toList exReac = some ⟨2, false⟩ ∧
+    written false "X".toList exReac = some ⟨3, true⟩ ∧ written false "X".toList exProd = some ⟨2, true⟩ ∧
+    written false "Q".toList exProd = none := by decide +kernel
+example : exTail.head?.map strip = some "1.5e-07".toList := by decide
+/-- `1.5 A -> B` has a non-integral total: refused -/
+example : integralWritten [⟨"A".toList, 1, .dec "5".toList, false⟩] [⟨"B".toList, 1, .omit, false⟩] = false := by decide +kernel
 
 /-- `(NH4)2SO4 + 3 H2O` as a printable side -/
 def exDict : Dict := [("(NH4)2SO4".toList, Coef.ofNat 1), ("H2O".toList, Coef.ofNat 3)]
